@@ -29,7 +29,9 @@ impl SwapTickSequence {
             && (a_to_b ==> p.1 <= tick_index || p.1 == -443636) && (!a_to_b ==> p.1 > tick_index || p.1 == 443636)
             // "next": no initialized tick lies between the search index and the answer (a_to_b searches downwards from tick_index inclusive, b_to_a upwards exclusive)
             && (a_to_b ==> forall|t: int| p.1 < t <= tick_index ==> !#[trigger] seq_init(*self, t))
-            && (!a_to_b ==> forall|t: int| tick_index < t < p.1 ==> !#[trigger] seq_init(*self, t)),
+            && (!a_to_b ==> forall|t: int| tick_index < t < p.1 ==> !#[trigger] seq_init(*self, t))
+            // initialized ticks sit on the spacing grid; the two protocol bounds are the only other answers
+            && (p.1 as int % tick_spacing as int == 0 || p.1 == -443636 || p.1 == 443636),
     { unimplemented!() }
     #[verifier::external_body]
     pub fn get_tick(&self, array_index: usize, tick_index: i32, tick_spacing: u16) -> (r: Result<Tick>)
